@@ -6,8 +6,8 @@ A cleanup's keyword arguments travel through several functions of the library on
 that parameter is positional-only (seed C20-g dropped the `/` of `SynchronousDeferredRunTest._run_user`; the unchanged synchronous runner
 passed the keywords to `maybeDeferred(f, ...)`: a cleanup keyword named `f` was a TypeError).  `names()` is the list the harnesses draw from:
 a fixed core plus the parameter names of every function on the call path AS FOUND IN THE TREE UNDER TEST (inspect), so that a renamed
-parameter is followed.  Used by harness/props/c20.py and the `kwfn` realisation hint of harness/mrun.py; harness/props/c14.py has its own
-fixed list CLEANUP_KW (a subset of this one)."""
+parameter is followed.  Used by harness/props/c20.py and the `kwfn` realisation hint of harness/mrun.py; harness/props/c14.py
+(cleanup_kws: its fixed names as a floor plus one of the further names of this list)."""
 import inspect
 
 FIXED = ['self', 'function', 'fn', 'f', 'args', 'kwargs', 'result', 'callable', 'key']
